@@ -1543,7 +1543,7 @@ Proof.
         constructor; [|exact F].
         unfold last_sent in LS. destruct (k_sent (g_calls st c)) as [|[q0 om] rest] eqn:KS; [discriminate|].
         inversion LS; subst q0. exists q, om. split; [|exact RQ].
-        apply Dd, T4, E4. rewrite KS. now left.
+        apply Dd, T4, E4. now left.
 Qed.
 
 (* what an accepted client operation leaves in the final state *)
